@@ -71,9 +71,7 @@ Qed.
 Lemma sub64_exact : forall a b, b <= a -> a < 2 ^ 64 -> sub64 a b = a - b.
 Proof.
   intros a b H1 H2. unfold sub64.
-  replace (a + 2 ^ 64 - b) with ((a - b) + 1 * 2 ^ 64) by lia.
-  rewrite N.mod_add by (apply N.pow_nonzero; lia).
-  apply N.mod_small. lia.
+  destruct (b <=? a) eqn:E; [reflexivity|]. apply N.leb_gt in E. lia.
 Qed.
 
 Lemma run_item_put : forall kb g xs d w, kb < 2 ^ 64 -> wr_inv kb w ->
